@@ -19,7 +19,7 @@ macro_rules! n16 {
 }
 /// (the last two are 264 and 1032 characters long: environment variable names have no length limit to speak of)
 pub const NAMES: [&str; 14] = ["Q", "z", "LvA", "LvAB", "_lvx", "lv.1", "élv1", "LvZ9", "Lv\u{663}x", "Lv\u{b2}", "\u{2167}Lv", "\u{663}", concat!("Lv_long_", n16!(n16!("n"))), concat!("Lv_LONG_", n16!(n16!("NnNn")))];
-const VALUES: [&str; 12] = ["val", "", "{", "}", "ENV{LvAB}", "LvAB}", "sub/dir", "ü", "x y", "ENV{LvA}{", "/abs/x", "/"];
+const VALUES: [&str; 16] = ["val", "", "{", "}", "ENV{LvAB}", "LvAB}", "sub/dir", "ü", "x y", "ENV{LvA}{", "/abs/x", "/", "AB", "A", "B}", "Z9}"];
 const LITERALS: [&str; 14] = ["a", "log", "é", " ", "-", ".", "_", "$", "{", "}", "$ENV", "$ENV{", "ENV{", "$$"];
 const MALFORMED: [&str; 10] = ["$ENV{}", "$ENV{.a}", "$ENV{-a}", "$ENV{$ENV{LvA}}", "$ENV{Lv-A}", "$ENV{Lv A}", "$ENV{Lv$A}", "$ENV{LvA", "$ENV{LvA/x}", "$ENV{ }"];
 
@@ -36,6 +36,7 @@ fn token() -> impl Strategy<Value = String> {
         7 => prop::sample::select(NAMES.to_vec()).prop_map(|n| format!("$ENV{{{}}}", n)),
         1 => Just("$ENV{LvNEVERSET}".to_string()),
         3 => prop::sample::select(MALFORMED.to_vec()).prop_map(|s| s.to_string()),
+        2 => (prop::sample::select(vec!["$ENV{Lv", "$ENV{LvA", "$ENV{_lv", "$ENV{"]), prop::sample::select(NAMES[..8].to_vec()), prop::sample::select(vec!["}", "", "}}"])).prop_map(|(p, n, s)| format!("{}$ENV{{{}}}{}", p, n, s)),
         1 => Just("/".to_string()),
     ]
 }
@@ -143,6 +144,9 @@ fn safe_token() -> impl Strategy<Value = String> {
         5 => prop::sample::select(SAFE_LITERALS.to_vec()).prop_map(|s| s.to_string()),
         6 => prop::sample::select(NAMES.to_vec()).prop_map(|n| format!("$ENV{{{}}}", n)),
         2 => prop::sample::select(vec!["$ENV{}", "$ENV{.a}", "$ENV{Lv-A}", "$ENV{LvA", "$ENV{$ENV{LvA}}", "$ENV"]).prop_map(|s| s.to_string()),
+        // a reference cut short by the next reference: `$ENV{Lv$ENV{Q}}` - if Q is worth "AB" the text reads $ENV{LvAB}
+        // afterwards, which is text, not a reference (nothing is scanned twice, in whichever direction)
+        2 => (prop::sample::select(vec!["$ENV{Lv", "$ENV{LvA", "$ENV{_lv", "$ENV{"]), prop::sample::select(NAMES[..8].to_vec()), prop::sample::select(vec!["}", "", "}}"])).prop_map(|(p, n, s)| format!("{}$ENV{{{}}}{}", p, n, s)),
         1 => Just("/d".to_string()),
         2 => Just("/".to_string()),
     ]
@@ -252,7 +256,8 @@ pub fn check_e2e(tmp: &Path, case: &Case, obs: &mut Obs) -> CaseResult {
                     }
                 }
                 _ => {
-                    let roller = FixedWindowRoller::builder().build(&format!("{}.{{}}", given), 2).map_err(|e| e.to_string())?;
+                    // (a window of one or of two, by the look of the path)
+                    let roller = FixedWindowRoller::builder().build(&format!("{}.{{}}", given), 1 + (case.path.len() as u32 % 2)).map_err(|e| e.to_string())?;
                     let src = root.join("rolled-src");
                     std::fs::write(&src, b"x").map_err(|e| e.to_string())?;
                     roller.roll(&src).map_err(|e| e.to_string())?;
